@@ -71,7 +71,7 @@ def run(R):
     # pending entries of another fetch of the same name (obligations decided by the C10 / C03 rules)
     R.ob('C19.SHR.1', 'shared with C10 / C03: a Nack header without reason is still a Nack for the legacy front-end; a timed-out waiter removes the PIT node '
                       'only when no other Interest is pending in it')
-    shared_obligations(R, 'C19.SHR.1', 'C10', {'C10.MPT.1': lambda i: 'parse_lp_packet' in i})
+    shared_obligations(R, 'C19.SHR.1', 'C10', {'C10.MPT.1': lambda i: 'parse_lp_packet' in i or i.startswith('ndn.app.NDNApp._receive')})
     shared_obligations(R, 'C19.SHR.1', 'C03', {'C03.MPT.1': lambda i: 'ndn.app.' in i or 'name_tree' in i})
 
 
